@@ -229,6 +229,9 @@ theorem selectType_single (tg : String) (r : Except Err Ty)
     (h : tg = "array" ∨ tg = "varargs" ∨ tg = "type") : selectType [(tg, r)] = r := by
   rcases h with rfl | rfl | rfl <;> simp [selectType, List.find?]
 
+theorem tyTag_typeChild (t : Ty) : typeChildTags.contains (tyTag t) = true := by
+  cases t <;> simp [tyTag, typeChildTags]
+
 theorem tyTag_cases (t : Ty) : tyTag t = "array" ∨ tyTag t = "varargs" ∨ tyTag t = "type" := by
   cases t <;> simp [tyTag]
 
@@ -367,7 +370,7 @@ theorem parse_write_type (ns : Str) : ∀ (t : Ty) (parent : Option (List (Optio
   | map c cc k v ihk ihv =>
     intro parent x hwf h
     simp only [wfTy, Bool.and_eq_true] at hwf
-    obtain ⟨⟨⟨htk, htv⟩, hwk⟩, hwv⟩ := hwf
+    obtain ⟨hwk, hwv⟩ := hwf
     simp only [writeType] at h
     split at h
     · cases h
@@ -380,11 +383,12 @@ theorem parse_write_type (ns : Str) : ∀ (t : Ty) (parent : Option (List (Optio
         rw [dropLen_of_length_none _ (by rw [tyLength_canonTy]; exact writeType_none_length ns k kx hkx)] at hik
         have hiv := ihv none vx hwv hvx
         rw [dropLen_of_length_none _ (by rw [tyLength_canonTy]; exact writeType_none_length ns v vx hvx)] at hiv
-        have hkt : kx.tag = "type" := by
-          rw [writeType_tag ns none k kx hkx]; cases k <;> first | rfl | cases htk
-        have hvt : vx.tag = "type" := by
-          rw [writeType_tag ns none v vx hvx]; cases v <;> first | rfl | cases htv
-        simp only [parseTypeSimple_elem, parseTypeNode, String.reduceEq, ↓reduceIte, attrGet_compact, lookupSome, Option.or_none, parseKids_cons, parseKids_nil, hkt, hvt, hik, hiv]
+        have hkt : typeChildTags.contains kx.tag = true := by
+          rw [writeType_tag ns none k kx hkx]; exact tyTag_typeChild k
+        have hvt : typeChildTags.contains vx.tag = true := by
+          rw [writeType_tag ns none v vx hvx]; exact tyTag_typeChild v
+        simp only [parseTypeSimple_elem, parseTypeNode, String.reduceEq, ↓reduceIte, attrGet_compact, lookupSome,
+          Option.or_none, parseKids_cons, parseKids_nil, List.filter_cons, List.filter_nil, hkt, hvt, hik, hiv]
         simp [sHash_ne_sList, sHash_ne_sSList, seqExcept, canonTy, dropLen]
 
 
